@@ -7,6 +7,8 @@
 //! - `>=1.2.3`, `>1.2.3`, `<=1.2.3`, `<1.2.3` - comparison operators
 //! - `1.2.x`, `1.x`, `*` - wildcards
 
+use std::cmp::Ordering;
+
 use semver::Version;
 
 use crate::parser::types::RegistryType;
@@ -237,10 +239,12 @@ impl VersionRange {
 
     /// Check if a version satisfies this range
     fn satisfies(&self, version: &Version) -> bool {
+        // SemVer precedence: build metadata (1.2.3+build) takes no part in comparisons
+        let cmp = |v: &Version| version.cmp_precedence(v);
         match self {
-            VersionRange::Exact(v) => version == v,
+            VersionRange::Exact(v) => cmp(v) == Ordering::Equal,
             VersionRange::Caret(v) => {
-                if version < v {
+                if cmp(v) == Ordering::Less {
                     return false;
                 }
                 // ^1.2.3 -> >=1.2.3 <2.0.0
@@ -261,18 +265,20 @@ impl VersionRange {
             }
             VersionRange::Tilde(v) => {
                 // ~1.2.3 -> >=1.2.3 <1.3.0
-                version >= v && version.major == v.major && version.minor == v.minor
+                cmp(v) != Ordering::Less && version.major == v.major && version.minor == v.minor
             }
-            VersionRange::Gte(v) => version >= v,
-            VersionRange::Gt(v) => version > v,
-            VersionRange::Lte(v) => version <= v,
-            VersionRange::Lt(v) => version < v,
+            VersionRange::Gte(v) => cmp(v) != Ordering::Less,
+            VersionRange::Gt(v) => cmp(v) == Ordering::Greater,
+            VersionRange::Lte(v) => cmp(v) != Ordering::Greater,
+            VersionRange::Lt(v) => cmp(v) == Ordering::Less,
             VersionRange::Any => true,
             VersionRange::WildcardMajor(major) => version.major == *major,
             VersionRange::WildcardMinor(major, minor) => {
                 version.major == *major && version.minor == *minor
             }
-            VersionRange::Hyphen { from, to } => version >= from && version <= to,
+            VersionRange::Hyphen { from, to } => {
+                cmp(from) != Ordering::Less && cmp(to) != Ordering::Greater
+            }
         }
     }
 
@@ -342,7 +348,7 @@ pub(crate) fn npm_compare_to_latest(current_version: &str, latest_version: &str)
         return CompareResult::Latest;
     };
 
-    if base < latest {
+    if base.cmp_precedence(&latest) == Ordering::Less {
         CompareResult::Outdated
     } else {
         CompareResult::Newer
